@@ -243,6 +243,7 @@ let provision_buf (w : world) (b : sbuf) : string =
 let use_hl = (Sys.getenv_opt "GSE_HL" = Some "1")
 let encap_m crc s pdu fid pt lab buf = if use_hl then Ret (encap_hl crc s pdu fid pt lab buf) else encap crc s pdu fid pt lab buf
 let encap_frag_m pdu ctx buf = if use_hl then Ret (encap_frag_hl pdu ctx buf) else encap_frag pdu ctx buf
+let encap_ext_m crc s pdu fid pt lab buf exts = if use_hl then Ret (encap_ext_hl crc s pdu fid pt lab buf exts) else encap_ext crc s pdu fid pt lab buf exts
 let decap_m crc mgr s buf = if use_hl then Ret (decap_hl crc mgr s buf) else decap crc mgr s buf
 
 let ios = int_of_string
@@ -267,7 +268,7 @@ let apply (w : world) (line : string) : string =
       match (try Ok (exts_tok t.(7)) with ExtNewErr -> Error "err extnew" | ModelPanic -> Error "PANIC extnew") with
       | Error s -> s
       | Ok exts ->
-        enc_result w (encap_ext default_crc w.enc pdu (nos t.(2)) (nos t.(3)) lab (nbytes before) exts) before pdu true
+        enc_result w (encap_ext_m default_crc w.enc pdu (nos t.(2)) (nos t.(3)) lab (nbytes before) exts) before pdu true
     end
   | "EFRAG" ->
     let pdu = nbytes (bytes_tok t.(1)) in
